@@ -100,7 +100,7 @@ func init() {
 		Case:        c15Case,
 		MinDistinct: func(t string) int { return 150 },
 		Floors: func(string) map[string]int64 {
-			return map[string]int64{"pals_runs": 200, "hits_checked": 250, "planted_repeats": 250, "planted_reverse_strand": 80, "planted_recovered": 250, "self_comparison_runs": 30, "hits_with_errors": 60, "near_minimum_plants": 60, "short_repeats_with_end_substitutions": 40, "tandem_self_repeats": 20, "plants_with_one_block_difference": 60}
+			return map[string]int64{"pals_runs": 200, "hits_checked": 250, "planted_repeats": 250, "planted_reverse_strand": 80, "planted_recovered": 250, "self_comparison_runs": 30, "hits_with_errors": 60, "near_minimum_plants": 60, "short_repeats_with_end_substitutions": 40, "tandem_self_repeats": 20, "plants_with_one_block_difference": 60, "runs_through_alignfrom": 40, "runs_through_a_reused_dp_aligner": 40}
 		},
 		Aggregate: func(tier string, c map[string]int64) []obs.Violation {
 			tried := c["short_repeats_recovered"] + c["short_repeats_missed"]
@@ -359,12 +359,39 @@ func c15Case(r *obs.Run, i int) {
 	}
 	w["filter_params"] = *pa.FilterParams
 	var hits [2]dp.Hits
+	var traps [2]filter.Trapezoids
 	for strand := 0; strand < 2; strand++ {
 		hits[strand], err = pa.Align(strand == 1)
 		if err != nil {
 			fail("pals-error", fmt.Sprintf("Align(complement=%v): %v", strand == 1, err))
 			return
 		}
+		traps[strand] = append(filter.Trapezoids(nil), pa.Trapezoids()...)
+	}
+	// other ways to the same hits: the trapezoids of each search, saved by the caller, handed back later to AlignFrom (by
+	// then the aligner last saw the other strand's), or given to one dp.Aligner that is then used again while the caller
+	// still holds the first answer
+	route := []string{"Align", "Align", "AlignFrom", "dp.Aligner"}[rng.Intn(4)]
+	w["route_to_the_hits"] = route
+	switch route {
+	case "AlignFrom":
+		for _, strand := range []int{0, 1} {
+			hits[strand], err = pa.AlignFrom(traps[strand], strand == 1)
+			if err != nil {
+				fail("pals-error", fmt.Sprintf("AlignFrom(complement=%v): %v", strand == 1, err))
+				return
+			}
+		}
+		r.Count("runs_through_alignfrom", 1)
+	case "dp.Aligner":
+		al := dp.NewAligner(ts, qs, pa.FilterParams.WordSize, pa.DPParams.MinHitLength, pa.DPParams.MinId)
+		al.Costs = &pa.Costs
+		hits[0] = al.AlignTraps(traps[0])
+		if n := len(traps[0]); n > 0 { // the same aligner again, on part of the trapezoids; hits[0] stays the caller's
+			al.AlignTraps(append(filter.Trapezoids(nil), traps[0][n/2:]...))
+			al.AlignTraps(append(filter.Trapezoids(nil), traps[0][:n/2]...))
+		}
+		r.Count("runs_through_a_reused_dp_aligner", 1)
 	}
 	r.Count("pals_runs", 1)
 	if pl.Self {
